@@ -38,7 +38,7 @@ CHECKS = {
     "C11": {"level": "exploration", "tests": [hist("TestC11"), hist("TestC11Twin", q=400, t=10000)], "assumptions": COMMON_ASSUMPTIONS},
     "C12": {"level": "exploration", "tests": [hist("TestC12"), hist("TestC12Twin", q=400, t=10000)], "assumptions": COMMON_ASSUMPTIONS},
     "C13": {"level": "exploration", "tests": [direct("TestC13", q=20000, t=2000000), hist("TestC13History", q=500, t=15000)], "assumptions": COMMON_ASSUMPTIONS},
-    "C14": {"level": "exploration", "tests": [det("TestC14"), direct("TestC14Random", q=20000, t=3000000)], "assumptions": ["the property sentence is restated independently in harness/ref/ref.go"]},
+    "C14": {"level": "exploration", "tests": [det("TestC14"), direct("TestC14Random", q=20000, t=3000000), hist("TestC14History", q=600, t=15000)], "assumptions": ["the property sentence is restated independently in harness/ref/ref.go"]},
     "C15": {"level": "exploration", "tests": [direct("TestC15Direct", q=3000, t=300000), hist("TestC15History")], "assumptions": COMMON_ASSUMPTIONS},
     "C16": {"level": "exploration", "tests": [det("TestC16Validation"), direct("TestC16ValidationRandom", q=20000, t=3000000), direct("TestC16Decode", q=2000, t=200000),
                                               {"name": "FuzzC16Decode", "fuzz": True, "quick": None, "thorough": {"checks": 0, "shards": 1, "timeout": 400, "fuzztime": "120s"}}],
